@@ -224,7 +224,9 @@ A check that is right was never loosened; these were errors of the machinery and
 * C02 (direction 2): every failure of an encrypted reference-written file was attributed to one of the two recorded
   findings by the file's flags alone. The tags are now applied only where the finding explains the failure (a stored
   unit whose length is not a multiple of 4 for D11b; a failure that appears only behind a prefix is never attributed) -
-  this is what let the seeded change C02-m9 hide.
+  this is what let the seeded change C02-m9 hide. The first version of the "only behind a prefix" test compared error
+  texts, which quote file sizes: in the thorough tier a file already unreadable at offset 0 (finding D11a) was reported as a
+  prefix failure on the unchanged tree; the test now goes by file name. Found by running every thorough command after the change.
 
 ## 9. Seeded changes (fresh sub-agents, own worktrees) and which check catches them
 
